@@ -436,12 +436,12 @@ func (cs *ContractSet) directive(cur **Contract, body, path string, ln int, pkgP
 	case "at", "after":
 		// at call Callee assert expr   |   after call Callee assume expr (evaluated in the post-call state)
 		fs := strings.SplitN(rest, " ", 4)
-		if len(fs) < 4 || fs[0] != "call" || (fs[2] != "assert" && fs[2] != "assume" && fs[2] != "let") {
+		if len(fs) < 4 || fs[0] != "call" || (fs[2] != "assert" && fs[2] != "assume" && fs[2] != "let" && fs[2] != "set") {
 			return fail("at call <callee> assert|assume <expr>  |  after call <callee> let <name> = <expr>")
 		}
 		letName := ""
 		src := fs[3]
-		if fs[2] == "let" {
+		if fs[2] == "let" || fs[2] == "set" {
 			i := strings.Index(src, "=")
 			if i < 0 {
 				return fail("let <name> = <expr>")
